@@ -17,9 +17,10 @@ def _named(name, f):
 LIB = {}
 
 
-def _reg(bid, nargs, pyname, deps=(), raises=False):
+def _reg(bid, nargs, pyname, deps=(), raises=False, selfref=False):
     def deco(factory):
-        LIB[bid] = dict(id=bid, nargs=nargs, pyname=pyname, deps=tuple(deps), factory=factory, raises=raises)
+        LIB[bid] = dict(id=bid, nargs=nargs, pyname=pyname, deps=tuple(deps), factory=factory, raises=raises,
+                        selfref=selfref)
         return factory
     return deco
 
@@ -115,6 +116,18 @@ def _(ns):
 @_reg('projrp', 2, 'pr')
 def _(ns):
     return _named('pr', lambda x, y: (x @ y) + (x & y))
+
+
+@_reg('peel', 1, 'peel', selfref=True)
+def _(ns):
+    # calls *itself* on another key pattern (the element without its highest grade) while it is being generated:
+    # re-entrant generation on one and the same registered object
+    def peel(x):
+        gs = sorted({bin(k).count('1') for k in x.keys()})
+        if len(gs) <= 1:
+            return x * x
+        return ns['peel'](x.grade(*gs[:-1])) + x
+    return _named('peel', peel)
 
 
 def closure(bids):
